@@ -4,7 +4,7 @@
    on the implementation's observations). *)
 From Coq Require Import List ZArith NArith Bool.
 From YK Require Import Base.Res Base.ResSpec Core.Obs Core.Model Core.Ledger Core.NodeProofs Core.QueueProofs Core.StepProofs
-  Core.QueueStepProofs Core.LedgerExamples Oracles.CoreC01.
+  Core.QueueStepProofs Core.LedgerExamples Core.Reload Core.QueueConfProofs Oracles.CoreC01 Oracles.CoreC02Conf.
 Import ListNotations.
 Open Scope Z_scope.
 
@@ -75,3 +75,11 @@ Theorem c02_effective_max_monotone : forall s fuel qid q k l, (forall q, In q (s
   exists v, get (oget (get_max_fuel (S fuel) s qid)) k = Some v /\ v <= l.
 Proof. exact effective_max_monotone. Qed.
 Print Assumptions c02_effective_max_monotone.
+
+(* 12. the configured maximum: when the queue objects on the path carry the maximum the configuration in force gives
+   them (established for accepted reloads by Props/C16.v accept_applies), the queue-object clause of a decision
+   (theorem 9) yields the clause judged against the configuration (oracle kind 204, Oracles/CoreC02Conf.v) *)
+Theorem c02_confmax_ok_from_objmax : forall cur pre post qid r, carries_conf cur post qid ->
+  queue_max_ok_after post qid r = true -> queue_confmax_ok_after cur pre post qid r = true.
+Proof. exact confmax_ok_from_objmax. Qed.
+Print Assumptions c02_confmax_ok_from_objmax.
